@@ -263,7 +263,7 @@ def vbool(draw, depth=2, varnames=()):
 
 UNEVALUABLE = [
     ['cmp', ['name', 'payments'], [['>=', ['num', 12]]]],
-    ['cmp', ['call', 'sum', [['name', 'total']]], [['>', ['num', 1]]]],
+    ['cmp', ['call', 'sum', [['name', 'months']]], [['>', ['num', 1]]]],  # (sum(total) is NOT used: tally evaluates sum(0.0) to 0, and sum() of a scalar is undocumented)
     ['cmp', ['name', 'nosuchname'], [['>', ['num', 1]]]],
     ['cmp', ['call', 'sum', [['call', 'by', [['str', 'decade']]]]], [['>', ['num', 1]]]],
     ['cmp', ['bin', '+', ['name', 'months'], ['name', 'category']], [['>', ['num', 3]]]],
